@@ -34,6 +34,8 @@ type gzipResponseWriter struct {
 	// headerAtWriteHeader is the header as it stood when the handler called WriteHeader:
 	// net/http sends that, whatever the handler does to the map afterwards
 	headerAtWriteHeader http.Header
+	// trailerValues: trailer values set before the header went out (see restoreHeaderSnapshot)
+	trailerValues http.Header
 }
 
 // WriteHeader records the status code. The header is sent later, once it is known
@@ -60,14 +62,50 @@ func (g *gzipResponseWriter) restoreHeader() {
 	if g.headerAtWriteHeader == nil {
 		return
 	}
-	h := g.ResponseWriter.Header()
+	g.trailerValues = restoreHeaderSnapshot(g.ResponseWriter.Header(), g.headerAtWriteHeader)
+	g.headerAtWriteHeader = nil
+}
+
+// restoreHeaderSnapshot makes h what it was at WriteHeader (changes made afterwards do not
+// belong to the response header) - except for trailers: the value of a trailer that the
+// header announces ("Trailer: X-Sum"), or that is marked with http.TrailerPrefix, is set in the
+// same map after WriteHeader, by design of net/http, and is sent after the body. Those values
+// are returned, to be put back with addTrailerValues after the header has been written
+func restoreHeaderSnapshot(h, snapshot http.Header) http.Header {
+	trailers := http.Header{}
+	for _, line := range snapshot["Trailer"] {
+		for _, name := range strings.Split(line, ",") {
+			k := http.CanonicalHeaderKey(strings.TrimSpace(name))
+			if v, set := h[k]; set {
+				trailers[k] = v
+			}
+		}
+	}
+	for k, v := range h {
+		if strings.HasPrefix(k, http.TrailerPrefix) {
+			trailers[k] = v
+		}
+	}
 	for k := range h {
 		delete(h, k)
 	}
-	for k, v := range g.headerAtWriteHeader {
+	for k, v := range snapshot {
 		h[k] = v
 	}
-	g.headerAtWriteHeader = nil
+	for k := range trailers {
+		if _, inHeader := snapshot[k]; inHeader {
+			delete(trailers, k)
+		}
+	}
+	return trailers
+}
+
+// addTrailerValues puts trailer values back into h once the header has gone out (a value that
+// is in the map when the header is written would be sent as a header field as well)
+func addTrailerValues(h, trailers http.Header) {
+	for k, v := range trailers {
+		h[k] = v
+	}
 }
 
 // commit sends the recorded header to the underlying writer
@@ -81,6 +119,8 @@ func (g *gzipResponseWriter) commit() {
 		g.wroteHeader = true
 	}
 	g.ResponseWriter.WriteHeader(g.statusCode)
+	addTrailerValues(g.ResponseWriter.Header(), g.trailerValues)
+	g.trailerValues = nil
 }
 
 // passThrough gives up buffering: the header and whatever is buffered go out
